@@ -5,7 +5,7 @@
 import os, sys
 sys.path.insert(0, os.path.join(os.environ.get("AIOFTP_REPO", "/repo"), "src"))
 OBLIGATION = 'aioftp.server:stor_worker@stor::ThrottleStreamIO.__aexit__/no-wait-on-the-peer-after-cancellation:writer.wait_closed'
-MODEL = {'block_size!0': 1, 'data_connection_done!22': True, 'restart_offset!10': 1, 'chunk!70': 'A', 'rest!71': '', 'wait_future_timeout!41': '0/1', 'dc_accepted!38': True, 'dc_accepted!43': False, 'dc_accepted!39': False, 'dc_accepted!35': False, 'dc_accepted!30': False, 'dc_accepted!34': False, 'dc_accepted!29': False, 'data_connection_present!21': False, 'user_present!11': True, 'user_done!12': True, 'incoming!59': 'A', 'passive_server_done!20': True, 'logged_done!14': True, 'fsbool!37': True, 'writable!33': True, 'current_directory_present!15': True, 'current_directory_done!16': True, 'passive_server_present!19': True, 'consumed!60': '', 'incoming!23': 'A', 'logged_present!13': True, 'fileW!62': '', 'auth_ok!27': True}
+MODEL = {'block_size!0': 1, 'data_connection_done!22': True, 'restart_offset!10': 1, 'rest!106': '', 'chunk!105': 'A', 'wait_future_timeout!48': '0/1', 'dc_accepted!38': True, 'dc_accepted!50': False, 'dc_accepted!39': False, 'dc_accepted!35': False, 'dc_accepted!30': False, 'dc_accepted!34': False, 'dc_accepted!29': False, 'data_connection_present!21': False, 'user_present!11': True, 'current_directory_present!52': True, 'current_directory_present!41': True, 'current_directory_present!74': True, 'current_directory_done!99': True, 'current_directory_done!53': True, 'writable!33': True, 'current_directory_done!75': True, 'current_directory_done!16': True, 'passive_server_present!19': True, 'consumed!88': '', 'incoming!23': 'A', 'current_directory_done!121': True, 'current_directory_present!63': True, 'current_directory_done!64': True, 'current_directory_present!98': True, 'user_done!12': True, 'fileW!90': '', 'passive_server_done!20': True, 'logged_done!14': True, 'fsbool!37': True, 'incoming!87': 'A', 'current_directory_done!111': True, 'current_directory_present!15': True, 'logged_present!13': True, 'current_directory_present!120': True, 'current_directory_done!42': True, 'current_directory_present!110': True, 'auth_ok!27': True}
 SOLVER_NOTE = ''
 
 print("obligation", OBLIGATION, "failed; no concrete failing input could be constructed automatically")
